@@ -56,6 +56,7 @@ type RunResult struct {
 	ScriptPath string           `json:"script_path,omitempty"`
 	Sample     json.RawMessage  `json:"sample,omitempty"`
 	Err        string           `json:"err,omitempty"`
+	Earlier    []uint64         `json:"earlier_seeds,omitempty"` // seeds this worker process ran before (set on violation)
 }
 
 func runSeed(seed uint64, prop, tier string, env *Env, known *KnownFindings, scratch, tracePath string) (*Exec, *Script) {
@@ -128,12 +129,17 @@ func workerMain(args []string) int {
 	defer out.Flush()
 	t0 := time.Now()
 	n := 0
+	var ranSeeds []uint64
 	for i := *start; n < *count; i += *stride {
 		if time.Since(t0).Seconds() > *budget && n > 0 {
 			break
 		}
 		seed := *base*1_000_003 + uint64(i)
 		rr := oneRun(seed, *prop, *tier, env, known, *scratch, n == 0)
+		if len(rr.Violations) > 0 {
+			rr.Earlier = append([]uint64(nil), ranSeeds...)
+		}
+		ranSeeds = append(ranSeeds, seed)
 		bz, _ := json.Marshal(rr)
 		out.Write(bz)
 		out.WriteByte('\n')
@@ -541,21 +547,43 @@ func minimiseAndConfirm(r *RunResult, env *Env, scratch string) (string, int) {
 		return path, 2
 	}
 	fmt.Printf("minimised %d -> %d steps (%d candidate executions)\n", len(s.Steps), len(final.Steps), tries)
-	// fresh-process confirmation
-	self, _ := os.Executable()
-	cmd := exec.Command(self, "replay", path)
-	outb, err := cmd.CombinedOutput()
-	code := 0
-	if ee, ok := err.(*exec.ExitError); ok {
-		code = ee.ExitCode()
-	} else if err != nil {
-		code = 2
+	// fresh-process confirmation; fallbacks: the unminimised script, then the unminimised script preceded by the
+	// runs the worker process had executed before it (process-global state)
+	confirm := func(p string) (bool, string) {
+		self, _ := os.Executable()
+		outb, err := exec.Command(self, "replay", p).CombinedOutput()
+		code := 0
+		if ee, ok := err.(*exec.ExitError); ok {
+			code = ee.ExitCode()
+		} else if err != nil {
+			code = 2
+		}
+		return code == 1 && strings.Contains(string(outb), "REPLAY-OK"), tail(string(outb), 600)
 	}
-	if code != 1 || !strings.Contains(string(outb), "REPLAY-OK") {
-		fmt.Printf("fresh-process replay did not reproduce (exit %d): %s\n", code, tail(string(outb), 800))
-		return path, 2
+	if ok, _ := confirm(path); ok {
+		return path, 1
 	}
-	return path, 1
+	orig := s
+	orig.Violation = target
+	orig.TraceHash = ""
+	ob, _ := json.MarshalIndent(&orig, "", " ")
+	_ = os.WriteFile(path, ob, 0o644)
+	if ok, _ := confirm(path); ok {
+		fmt.Println("note: the minimised script did not reproduce in a fresh process; the unminimised script does and is reported")
+		return path, 1
+	}
+	if len(r.Earlier) > 0 {
+		orig.Prelude = r.Earlier
+		ob, _ = json.MarshalIndent(&orig, "", " ")
+		_ = os.WriteFile(path, ob, 0o644)
+		if ok, _ := confirm(path); ok {
+			fmt.Printf("note: the violation reproduces in a fresh process only after the %d runs the worker had executed before it: it depends on process-global state that outlives a request\n", len(r.Earlier))
+			return path, 1
+		}
+	}
+	_, lastOut := confirm(path)
+	fmt.Printf("fresh-process replay did not reproduce: %s\n", lastOut)
+	return path, 2
 }
 
 func withEpilogueOff(c RunConfig) RunConfig { c.EpilogueOff = true; return c }
@@ -600,6 +628,15 @@ func replayMain(args []string) int {
 	env := NewEnv()
 	scratch, _ := os.MkdirTemp("", "panasim-replay-")
 	defer os.RemoveAll(scratch)
+	for _, ps := range s.Prelude {
+		func() {
+			defer func() { recover() }()
+			runScript(GenerateScript(ps, s.Property, s.Tier, env), env, LoadKnown(filepath.Join(verifDir, "known_findings.json")), scratch, "")
+		}()
+	}
+	if len(s.Prelude) > 0 {
+		fmt.Printf("prelude: re-executed %d earlier runs of the same worker process\n", len(s.Prelude))
+	}
 	e := runScript(&s, env, LoadKnown(filepath.Join(verifDir, "known_findings.json")), scratch, tracePath)
 	fmt.Printf("replay seed=%d property=%s steps=%d blocks=%d trace=%s\n", s.Seed, s.Property, len(s.Steps), len(e.Blocks), e.Trace.Sum())
 	for _, k := range e.KnownHits {
